@@ -413,6 +413,7 @@ func (e *FnEnc) runDefers() {
 		// the deferred call runs only on paths where the defer statement executed
 		pre := copyState(e.cur)
 		e.curGuard = and(saved, d.guard)
+		e.applyCallAsserts(&d.d.Call, d.d)
 		e.call(nil, &d.d.Call, d.d)
 		e.applyCallUpdates(nil, &d.d.Call)
 		// merge: state changes apply only under d.guard
@@ -725,4 +726,58 @@ func callNames(c *ssa.CallCommon) map[string]bool {
 		}
 	}
 	return names
+}
+
+// applyCallAsserts generates the obligations of "call NAME assert expr" clauses before a call to NAME.
+func (e *FnEnc) applyCallAsserts(c *ssa.CallCommon, in ssa.Instruction) {
+	if e.con == nil || len(e.con.CallAsserts) == 0 {
+		return
+	}
+	names := callNames(c)
+	for k, a := range e.con.CallAsserts {
+		if !names[a.Callee] || !clauseActive(a.Clause, e.prop) {
+			continue
+		}
+		env := e.specEnv(e.cur, e.initState, nil)
+		env.site = e.curBlock
+		for j, x := range c.Args {
+			env.vars[fmt.Sprintf("a%d", j)] = e.val(x)
+		}
+		if c.IsInvoke() {
+			env.vars["recv"] = e.val(c.Value)
+		}
+		e.obligeClause(env, a.Clause, fmt.Sprintf("call.%s.assert%d@%s", mangle(a.Callee), k+1, e.posOf(in)), "protocol", e.curGuard, e.posOf(in))
+	}
+}
+
+// protectCheck: a read or write of a protected struct field must satisfy the declared condition.
+func (e *FnEnc) protectCheck(l *Loc, write bool, in ssa.Instruction) {
+	if e.con == nil || len(e.W.Contracts.Protects) == 0 || len(l.Path) == 0 || l.Path[0].Field < 0 || l.Elem {
+		return
+	}
+	nt, ok := l.RootTy.(*types.Named)
+	if !ok {
+		return
+	}
+	st, ok := nt.Underlying().(*types.Struct)
+	if !ok {
+		return
+	}
+	fname := st.Field(l.Path[0].Field).Name()
+	for _, p := range e.W.Contracts.Protects {
+		if p.Type != nt.Obj().Name() || p.Field != fname || nt.Obj().Pkg() == nil || nt.Obj().Pkg().Path() != p.Pkg {
+			continue
+		}
+		cl := p.Read
+		kind := "read"
+		if write {
+			cl, kind = p.Write, "write"
+		}
+		if !clauseActive(*cl, e.prop) {
+			continue
+		}
+		env := e.specEnv(e.cur, e.initState, nil)
+		env.site = e.curBlock
+		e.obligeClause(env, *cl, fmt.Sprintf("protect.%s.%s.%s@%s", p.Type, p.Field, kind, e.posOf(in)), "protocol", e.curGuard, e.posOf(in))
+	}
 }
